@@ -134,7 +134,9 @@ EverAfter(E, I, R, I2, d2) == (E \cup LeavesOf(I2)) \ {l \in Orphaned(I, R) : l 
 \* leaf-local range / length / pattern / max-elements (table UBad), mandatory child of a presence
 \* container, leafref with require-instance to a list key, a must that needs a sibling.
 LeafLocalOK(cfg, dis) == \A l \in DOMAIN cfg : \A b \in UBad : (b[1] = l /\ b[2] = cfg[l]) => b[3] \in dis
-MandatoryOK(cfg) == (("s.svc" \in DOMAIN cfg) \/ ("s.svc.note" \in DOMAIN cfg)) => ("s.svc.id" \in DOMAIN cfg)
+\* sys/svc/id below the presence container; mitem/req in every entry of the list that exists
+MandatoryOK(cfg) == /\ (("s.svc" \in DOMAIN cfg) \/ ("s.svc.note" \in DOMAIN cfg)) => ("s.svc.id" \in DOMAIN cfg)
+                    /\ \A e \in {"m1", "m2"} : (\E l \in DOMAIN cfg : EntryOf(l) = e) => (\E l \in DOMAIN cfg : l = e \o ".req")
 LeafrefOK(cfg) == ("s.primary" \in DOMAIN cfg) =>
                      \/ (cfg["s.primary"] = "s:$k1" /\ "i1.name" \in DOMAIN cfg)
                      \/ (cfg["s.primary"] = "s:$k2" /\ "i2.name" \in DOMAIN cfg)
